@@ -76,6 +76,8 @@ def make_spec(run_seed, tier, prop, choice_weights=None, forced_prob=0.0, branch
         spec["entry"] = "stochastic"  # the same string through the user-facing Stochastic class
     if rs.random() < 0.12:
         spec["again"] = rs.randrange(1 << 40)  # a second, fully audited generation from the same parsed object
+    if "entry" not in spec and rs.random() < 0.06:
+        spec["entry"] = "mirror"  # generate from Molecule.gen_mirror(), audit against the mirrored description
     if "entry" not in spec and rs.random() < 0.07:
         spec["entry"] = "staged"  # element by element through the copies handed out by Molecule.elements (genrun.py)
     if "hub" in tags:
@@ -142,6 +144,17 @@ def execute(spec, props=None):
         ast = reader.read_molecule(text).build()
     except Exception as exc:
         return {"harness_error": f"reader failed on workload text {text!r}: {exc!r}", "violations": []}
+    if spec.get("entry") == "mirror":
+        # generation from Molecule.gen_mirror(): judged against the mirrored description (elements reversed, terminals swapped)
+        from ..notation import mirror_ast
+
+        ast_m = mirror_ast(ast)
+        if len(ast.elements) >= 2 and wellposed.analyse(ast_m)[0]:
+            ast = ast_m
+            stats["entry_mirror"] = 1
+        else:
+            spec = dict(spec)
+            spec["entry"] = "molecule"
     well, why = wellposed.analyse(ast)
     if not well:
         stats["illposed_input"] = 1
